@@ -28,6 +28,7 @@ import (
 	"golang.org/x/sys/unix"
 	"pgregory.net/rapid"
 
+	"github.com/AliyunContainerService/terway/plugin/driver/nic"
 	"github.com/AliyunContainerService/terway/plugin/driver/types"
 	"github.com/AliyunContainerService/terway/plugin/driver/utils"
 	terwayTypes "github.com/AliyunContainerService/terway/types"
@@ -119,7 +120,7 @@ type c13kScenario struct {
 
 func c13kGen(t *rapid.T) c13kScenario {
 	s := c13kScenario{}
-	s.DP = rapid.SampledFrom([]int{c13DPPolicy, c13DPPolicy, c13DPExclusive}).Draw(t, "dp")
+	s.DP = rapid.SampledFrom([]int{c13DPPolicy, c13DPPolicy, c13DPPolicy, c13DPExclusive, c13DPExclusive, c13DPIPVlan, c13DPIPVlan}).Draw(t, "dp")
 	switch rapid.IntRange(0, 3).Draw(t, "family") {
 	case 0:
 		s.V4 = true
@@ -343,7 +344,8 @@ type c13kEnv struct {
 	dropSecond bool
 	noGuard    bool
 	eniGone    bool
-	staleTable int // table of "another interface" that stale rules point into
+	staleTable int    // table of "another interface" that stale rules point into
+	slaveName  string // ipvlan: name of the host-side slave ipvl_<eni index> (a veth stands in)
 }
 
 func (e *c13kEnv) scaffold(err error, what string) {
@@ -440,10 +442,13 @@ func (e *c13kEnv) setupConfigIf(p, i int, eniIndex int) *types.SetupConfig {
 		cfg.MultiNetwork = true
 		cfg.DefaultRoute = (i == 1) == pod.DefaultB
 	}
-	if s.DP == c13DPPolicy {
+	if s.DP == c13DPPolicy || s.DP == c13DPIPVlan {
 		cfg.DP = types.IPVlan
 	} else {
 		cfg.DP = types.ExclusiveENI
+	}
+	if s.DP == c13DPIPVlan {
+		cfg.ExtraRoutes = nil
 	}
 	if s.V4 {
 		cfg.ContainerIPNet.IPv4 = &net.IPNet{IP: c13IP(e.ifAddr(p, i, false).String(), pod.Wide16), Mask: net.CIDRMask(pod.Prefix4, 32)}
@@ -458,6 +463,11 @@ func (e *c13kEnv) setupConfigIf(p, i int, eniIndex int) *types.SetupConfig {
 		cfg.HostIPSet.IPv6 = &net.IPNet{IP: net.ParseIP(s.HostIP6), Mask: net.CIDRMask(128, 128)}
 	}
 	for _, h := range s.HostStack {
+		if s.DP == c13DPIPVlan && c13IsV6(c13CIDR(h).IP) {
+			// the ipvlan redirect filters are IPv4 only: setupFilters rejects an IPv6 CIDR
+			// ("only support ipv4"), which is the tc part this tier cannot judge anyway
+			continue
+		}
 		cfg.HostStackCIDRs = append(cfg.HostStackCIDRs, c13CIDR(h))
 	}
 	for _, x := range pod.Extra {
@@ -588,10 +598,14 @@ func (e *c13kEnv) verifyLive(p int, when string) {
 	lv := e.live[p]
 	pod := &s.Pods[p]
 	tag := fmt.Sprintf("%s: pod%d", when, p)
-	hostVeth, herr := netlink.LinkByName(c13kHostVeth(p))
-	wantPeer := s.DP == c13DPPolicy || !pod.NoPeer
+	hostSideName := c13kHostVeth(p)
+	if s.DP == c13DPIPVlan {
+		hostSideName = e.slaveName
+	}
+	hostVeth, herr := netlink.LinkByName(hostSideName)
+	wantPeer := s.DP == c13DPPolicy || s.DP == c13DPIPVlan || !pod.NoPeer
 	if wantPeer && herr != nil {
-		e.fatal("%s: host-side link %s is missing: %v", tag, c13kHostVeth(p), herr)
+		e.fatal("%s: host-side link %s is missing: %v", tag, hostSideName, herr)
 	}
 	for _, a := range e.podAddrs(p) {
 		v6 := a.To4() == nil
@@ -603,7 +617,7 @@ func (e *c13kEnv) verifyLive(p int, when string) {
 					e.fatal("%s: route get %s (%+v): %v", tag, a, opt, err)
 				}
 				if r.LinkIndex != hostVeth.Attrs().Index || r.Gw != nil {
-					e.fatal("%s: traffic to %s (%+v) goes %s, want dev %s directly", tag, a, opt, c13kDescribe(r), c13kHostVeth(p))
+					e.fatal("%s: traffic to %s (%+v) goes %s, want dev %s directly", tag, a, opt, c13kDescribe(r), hostSideName)
 				}
 			}
 			// from another live pod
@@ -799,7 +813,7 @@ func (e *c13kEnv) verifyLive(p int, when string) {
 			}
 			for _, x := range pod.Extra {
 				dst := c13CIDR(x.Dst)
-				if c13IsV6(dst.IP) != v6 {
+				if c13IsV6(dst.IP) != v6 || s.DP == c13DPIPVlan {
 					continue
 				}
 				probe := append(net.IP{}, dst.IP...)
@@ -931,9 +945,12 @@ func (e *c13kEnv) doSetup(p int, when string) {
 		}
 		cfg := e.setupConfigIf(p, i, eni.Attrs().Index)
 		var err error
-		if s.DP == c13DPPolicy {
+		switch s.DP {
+		case c13DPPolicy:
 			err = NewPolicyRoute().Setup(e.ctx, cfg, cont)
-		} else {
+		case c13DPIPVlan:
+			err = e.ipvlanSetup(cfg, cont)
+		default:
 			err = NewExclusiveENIDriver().Setup(e.ctx, cfg, cont)
 		}
 		if err != nil {
@@ -948,8 +965,70 @@ func (e *c13kEnv) doSetup(p int, when string) {
 	e.everUp[p] = true
 }
 
+// ipvlanSetup is IPvlanDriver.Setup as far as this kernel can run it: there is no ipvlan link
+// type, so ipvlan.Setup (creation of the pod's link) is replaced by a veth pair inside the pod
+// namespace, the host-side slave ipvl_<eni index> is a pre-created veth of that name (found by
+// createSlaveIfNotExist), and the tc redirect filters of setupFilters may be refused by the
+// kernel.  Everything that programs addresses, routes, neighbours and sysctls is the real code.
+func (e *c13kEnv) ipvlanSetup(cfg *types.SetupConfig, cont ns.NetNS) error {
+	d := NewIPVlanDriver()
+	parent, err := netlink.LinkByIndex(cfg.ENIIndex)
+	if err != nil {
+		return err
+	}
+	if err := nic.Setup(e.ctx, parent, generateENICfgForIPVlan(cfg, parent)); err != nil {
+		return fmt.Errorf("eni config: %w", err)
+	}
+	err = cont.Do(func(ns.NetNS) error {
+		if _, err := netlink.LinkByName(cfg.ContainerIfName); err != nil {
+			if err := netlink.LinkAdd(&netlink.Veth{LinkAttrs: netlink.LinkAttrs{Name: "ipv0"}, PeerName: "ipv0p"}); err != nil {
+				e.scaffold(err, "pod link stand-in")
+			}
+			if l, err := netlink.LinkByName("ipv0p"); err == nil {
+				_ = netlink.LinkSetUp(l)
+			}
+		}
+		contLink, err := netlink.LinkByName("ipv0")
+		if err != nil {
+			return err
+		}
+		return nic.Setup(e.ctx, contLink, generateContCfgForIPVlan(cfg, contLink))
+	})
+	if err != nil {
+		return fmt.Errorf("container config: %w", err)
+	}
+	if cfg.ServiceCIDR != nil && cfg.ServiceCIDR.IPv4 != nil {
+		err = d.setupInitNamespace(e.ctx, parent, cfg)
+		if err == nil || !strings.Contains(err.Error(), "filter") {
+			return err
+		}
+		// slave link, addresses and routes are programmed before the tc steps
+		e.c.Trace("setupInitNamespace: tc step refused by this kernel: %v", err)
+		e.c.Label("ipvlan:tc-filters-refused")
+		return nil
+	}
+	// without an IPv4 service CIDR setupFilters cannot run at all; the steps before it
+	slave, err := d.createSlaveIfNotExist(e.ctx, parent, d.initSlaveName(parent.Attrs().Index), cfg.MTU)
+	if err != nil {
+		return err
+	}
+	if slave.Attrs().Flags&unix.IFF_NOARP == 0 {
+		if err := netlink.LinkSetARPOff(slave); err != nil {
+			return err
+		}
+	}
+	if err := nic.Setup(e.ctx, slave, generateSlaveLinkCfgForIPVlan(cfg, slave)); err != nil {
+		return err
+	}
+	e.c.Label("ipvlan:init-namespace-mirrored")
+	return utils.EnsureClsActQdsic(e.ctx, parent)
+}
+
 func (e *c13kEnv) doCheck(p int, when string) {
 	lv := e.live[p]
+	if e.s.DP == c13DPIPVlan {
+		return // IPvlanDriver.Check needs the parent index of a real ipvlan link
+	}
 	var events []string
 	cc := &types.CheckConfig{
 		RecordPodEvent:  func(msg string) { events = append(events, msg) },
@@ -1084,6 +1163,25 @@ func (e *c13kEnv) doTeardown(p int, partial int, when string) {
 			e.fatal("%s: Teardown(pod%d) failed: %v", when, p, err)
 		}
 	}
+	if s.DP == c13DPIPVlan {
+		// parseTearDownConf leaves the host veth name empty
+		tc := &types.TeardownCfg{
+			DP:              types.IPVlan,
+			ContainerIfName: "eth0",
+			ContainerIPNet:  e.setupConfig(p, 0).ContainerIPNet,
+			ServiceCIDR:     &terwayTypes.IPNetSet{IPv4: c13CIDR(s.Svc4), IPv6: c13CIDR(s.Svc6)},
+			ENIIndex:        e.eni.Attrs().Index,
+		}
+		switch s.EniIndexMode {
+		case c13kIdxZero:
+			tc.ENIIndex = 0
+		case c13kIdxStale:
+			tc.ENIIndex = e.eni.Attrs().Index + 4000
+		}
+		if err := NewIPVlanDriver().Teardown(e.ctx, tc, cont); err != nil {
+			e.fatal("%s: IPvlanDriver.Teardown(pod%d) failed: %v", when, p, err)
+		}
+	}
 	delete(e.live, p)
 	post, err := c13kSnapshot()
 	e.scaffold(err, "dump")
@@ -1162,10 +1260,14 @@ func c13kRunOpt(c *vt.Ctx, s c13kScenario, noGuard bool) {
 	e.scaffold(netlink.RouteAdd(&netlink.Route{LinkIndex: eth0.Attrs().Index, Dst: c13CIDR("0.0.0.0/0"), Gw: c13HostGW4}), "primary default route")
 	e.scaffold(netlink.AddrAdd(eth0, &netlink.Addr{IPNet: &net.IPNet{IP: net.ParseIP("2001:db8:9::9"), Mask: net.CIDRMask(64, 128)}, Flags: unix.IFA_F_NODAD}), "primary address v6")
 	e.scaffold(netlink.RouteAdd(&netlink.Route{LinkIndex: eth0.Attrs().Index, Dst: c13CIDR("::/0"), Gw: c13HostGW6}), "primary default route v6")
-	if s.DP == c13DPPolicy {
+	if s.DP == c13DPPolicy || s.DP == c13DPIPVlan {
 		e.scaffold(c13kVeth("eni0", "eni0p"), "ENI stand-in")
 		e.eni, err = netlink.LinkByName("eni0")
 		e.scaffold(err, "ENI stand-in")
+	}
+	if s.DP == c13DPIPVlan {
+		e.slaveName = NewIPVlanDriver().initSlaveName(e.eni.Attrs().Index)
+		e.scaffold(c13kVeth(e.slaveName, "ipvlslavep"), "ipvlan slave stand-in")
 	}
 	if s.DP == c13DPPolicy {
 		// the table of "another interface": whatever is looked up there leaves through eth0
